@@ -500,7 +500,8 @@ def client_plans(ctx: Ctx, rng: Any, bodies: List[B.Body], per_body: int) -> Lis
     for body in bodies:
         if not body.enc:
             continue
-        for _ in range(per_body):
+        # well-formed bodies get more schedules than each single truncation / bit flip
+        for _ in range(per_body if body.kind in ("trunc", "flip") else 4 * per_body):
             limit = rng.choice(LIMITS if body.kind not in ("trunc", "flip") else [1, 2, 7, 64, 65536])
             plan = _base_plan(rng, body, "client", limit)
             plan["sched"] = rng.choice(B.schedules(rng, limit, 22))
@@ -519,7 +520,7 @@ def server_plans(ctx: Ctx, rng: Any, bodies: List[B.Body], per_body: int) -> Lis
     for body in bodies:
         if not body.enc:
             continue
-        for _ in range(per_body):
+        for _ in range(per_body if body.kind in ("trunc", "flip") else 3 * per_body):
             limit = rng.choice([1, 2, 7, 64, 1024, 65536])
             plan = _base_plan(rng, body, "server", limit)
             n = B.ref_len(body.ref)
@@ -554,6 +555,9 @@ def bomb_plans(ctx: Ctx, rng: Any) -> List[dict]:
         if not ctx.quick:
             combos += [(1024, [("readany",)]), (1 << 20, [("iter_chunked", 1 << 18)])]
         for limit, sched in combos:
+            rd = min([o[1] for o in sched if o[0] in ("read", "iter_chunked")] or [limit])
+            if n // limit + n // rd > 25000:          # keeps a trace below ~10^5 events
+                continue
             for framing in (["length", "chunked"] if ctx.quick else ["length", "chunked", "eof"]):
                 plan = {"side": "client", "codec": body.codec, "framing": framing, "enc": body.enc, "ref": body.ref,
                         "limit": limit, "name": body.name + "/" + framing, "kind": "bomb", "gap": rng.choice([0, 1]),
@@ -890,31 +894,35 @@ def model_phase(ctx: Ctx, loop: steploop.StepLoop, stale: bool) -> List[dict]:
     ideal: List[Dict[str, Any]] = [
         dict(Mode="Chunked", Codec="zlib", Limit=1, MaxPieces=mp, MaxUnits=mu),
         dict(Mode="Length", Codec="zstd", Limit=2, MaxPieces=mp, MaxUnits=mu),
-        dict(Mode="UntilEOF", Codec="zlib", Limit=1, MaxPieces=ctx.pick(3, 4), MaxUnits=ctx.pick(1, 2), WithMembers=True),
+        dict(Mode="UntilEOF", Codec="zlib", Limit=1, MaxPieces=3, MaxUnits=ctx.pick(1, 2), WithMembers=True),
         dict(Mode="Chunked", Codec="identity", Limit=1, MaxPieces=mp, MaxUnits=mu),
         dict(Mode="Length", Codec="zlib", Limit=1, MaxPieces=3, MaxUnits=ctx.pick(1, 2), WithCorrupt=True, WithTrunc=True),
-        dict(Mode="Length", Codec="zlib", Limit=1, MaxPieces=mp, MaxUnits=ctx.pick(1, 2), Side="server", ClientMax=2),
+        dict(Mode="Length", Codec="zlib", Limit=1, MaxPieces=ctx.pick(4, 3), MaxUnits=ctx.pick(1, 2), Side="server", ClientMax=2),
     ]
     if not q:
         for mode in ("Length", "Chunked", "UntilEOF"):
             for codec in ("zlib", "zstd", "identity"):
                 for lim in (1, 2):
-                    ideal.append(dict(Mode=mode, Codec=codec, Limit=lim, MaxPieces=4, MaxUnits=2,
-                                      WithMembers=(codec != "identity")))
-        ideal.append(dict(Mode="Chunked", Codec="zstd", Limit=2, MaxPieces=4, MaxUnits=2, WithCorrupt=True, WithTrunc=True))
-        ideal.append(dict(Mode="Chunked", Codec="zlib", Limit=2, MaxPieces=4, MaxUnits=2, Side="server", ClientMax=3))
-    for over in ideal:
-        res = run_tlc("BodyFlow", write_cfg(over), workers=16, timeout=ctx.pick(400, 2400), deadlock=True, coverage=False)
-        ok = ctx.expect_model_ok(cname(over), res)
-        ctx.log(f"model {cname(over)}: {res.distinct} states, ok={ok}, {res.wall_s:.0f}s")
+                    ideal.append(dict(Mode=mode, Codec=codec, Limit=lim, MaxPieces=3, MaxUnits=2,
+                                      WithMembers=(codec, mode) in (("zlib", "Length"), ("zstd", "UntilEOF"))))
+        ideal.append(dict(Mode="Chunked", Codec="zstd", Limit=2, MaxPieces=3, MaxUnits=2, WithCorrupt=True, WithTrunc=True))
+        ideal.append(dict(Mode="Chunked", Codec="zlib", Limit=2, MaxPieces=3, MaxUnits=2, Side="server", ClientMax=3))
+    live = ctx.pick([dict(Mode="Chunked", Codec="zlib", Limit=1, MaxPieces=2, MaxUnits=2)],
+                    [dict(Mode=m, Codec=c, Limit=1, MaxPieces=3, MaxUnits=2)
+                     for m, c in (("Chunked", "zlib"), ("UntilEOF", "zstd"), ("Length", "identity"), ("Chunked", "identity"))])
+    jobs: List[Tuple[str, str]] = [(cname(o), write_cfg(o)) for o in ideal]
     # liveness under weak fairness, no state constraint
-    for over in ctx.pick([dict(Mode="Chunked", Codec="zlib", Limit=1, MaxPieces=2, MaxUnits=2)],
-                         [dict(Mode=m, Codec=c, Limit=1, MaxPieces=3, MaxUnits=2)
-                          for m, c in (("Chunked", "zlib"), ("UntilEOF", "zstd"), ("Length", "identity"), ("Chunked", "identity"))]):
-        res = run_tlc("BodyFlow", write_cfg(over, spec="FairSpec", invs=[], props=["Progress", "ReachesEof"]),
-                      workers=16, timeout=ctx.pick(400, 2400), deadlock=True)
-        ok = ctx.expect_model_ok("liveness " + cname(over), res)
-        ctx.log(f"liveness {cname(over)}: {res.distinct} states, ok={ok}, {res.wall_s:.0f}s")
+    jobs += [("liveness " + cname(o), write_cfg(o, spec="FairSpec", invs=[], props=["Progress", "ReachesEof"]))
+             for o in live]
+    from concurrent.futures import ThreadPoolExecutor
+
+    def one(job: Tuple[str, str]) -> Any:
+        return run_tlc("BodyFlow", job[1], workers=16, timeout=ctx.pick(600, 3000), deadlock=True)
+    with ThreadPoolExecutor(max_workers=3) as ex:          # small models: JVM start-up dominates
+        results = list(ex.map(one, jobs))
+    for (name, _cfg), res in zip(jobs, results):
+        ok = ctx.expect_model_ok(name, res)
+        ctx.log(f"model {name}: {res.distinct} states, depth {res.depth}, ok={ok}, {res.wall_s:.0f}s")
     # the code as found: TLC exhibits the consequences of the stale pause flag; the counterexample is
     # imposed on the real pipeline and judged like every other execution
     if stale:
@@ -923,7 +931,9 @@ def model_phase(ctx: Ctx, loop: steploop.StepLoop, stale: bool) -> List[dict]:
             res = run_tlc("BodyFlow", write_cfg(over, invs=["NoDeadlock", "NoSpuriousFailure"], props=[]),
                           workers=4, timeout=300, deadlock=False)
             require_clean(res, "as-coded " + cname(over))
-            ctx.add_model("as-coded " + cname(over), res, exhaustive=False)
+            ctx.extra.setdefault("as_coded_model_runs", []).append(
+                {"name": cname(over), "violated": res.violated, "distinct": res.distinct,
+                 "counterexample": [a for a, _ in res.trace]})
             ctx.log(f"as-coded {cname(over)}: violated={res.violated} after {res.distinct} states")
             if res.violated and res.trace:
                 full = full_consts(over)
@@ -963,9 +973,14 @@ def replay_phase(ctx: Ctx, loop: steploop.StepLoop, stale: bool) -> List[dict]:
             dict(Mode="UntilEOF", Codec="identity", Limit=2, MaxPieces=4, MaxUnits=2, **dev)]
     if ctx.quick:
         sims = sims[:1] + sims[3:4] + sims[1:2]
-    for over in sims:
-        bs, _ = simulate_behaviours("BodyFlow", write_cfg(over, invs=[], props=[]), num=ctx.pick(60, 600),
-                                    depth=ctx.pick(60, 80), seed=ctx.seed, timeout=300)
+    from concurrent.futures import ThreadPoolExecutor
+
+    def sim(over: Dict[str, Any]) -> Any:
+        return simulate_behaviours("BodyFlow", write_cfg(over, invs=[], props=[]), num=ctx.pick(60, 600),
+                                   depth=ctx.pick(60, 80), seed=ctx.seed, timeout=600)[0]
+    with ThreadPoolExecutor(max_workers=3) as ex:
+        allbs = list(ex.map(sim, sims))
+    for over, bs in zip(sims, allbs):
         for b in bs:
             tr = replay_behaviour(ctx, loop, b, full_consts(over), "tlc-sim")
             if tr is not None:
@@ -994,8 +1009,13 @@ def run(ctx: Ctx) -> None:
     stale = code_keeps_stale_pause(loop)
     ctx.extra["code_keeps_stale_pause_flag"] = stale
     ctx.log(f"probe: payload parser keeps a stale pause request: {stale}")
-    traces = model_phase(ctx, loop, stale)
-    traces += replay_phase(ctx, loop, stale)
+    # C09_PHASES (default: all) restricts a run to some phases - for sensitivity experiments only
+    phases = set((os.environ.get("C09_PHASES") or "model,replay,corpus").split(","))
+    if phases != {"model", "replay", "corpus"}:
+        ctx.notes.append(f"partial run: phases={sorted(phases)}")
+    traces = model_phase(ctx, loop, stale) if "model" in phases else []
+    if "replay" in phases:
+        traces += replay_phase(ctx, loop, stale)
     judge(ctx, traces, "model-replay")
     # the as-coded counterexample must be exhibited by the code, otherwise the model does not mirror it
     for t in traces:
@@ -1005,10 +1025,14 @@ def run(ctx: Ctx) -> None:
             if not hit:
                 ctx.drift("as-coded counterexample not reproduced by the code")
     # ---- drivers B and C
+    if "corpus" not in phases:
+        ctx.evaluations = ctx.traces
+        loop.uninstall()
+        return
     rng = ctx.rng
     bodies = B.corpus(rng, ctx.quick)
-    plans = client_plans(ctx, rng, bodies, ctx.pick(2, 12))
-    plans += server_plans(ctx, rng, bodies + form_bodies(rng), ctx.pick(1, 4))
+    plans = client_plans(ctx, rng, bodies, ctx.pick(1, 6))
+    plans += server_plans(ctx, rng, bodies + form_bodies(rng), ctx.pick(1, 3))
     plans += bomb_plans(ctx, rng)
     ctx.log(f"{len(plans)} corpus executions planned ({len(bodies)} bodies)")
     batch: List[dict] = []
